@@ -23,6 +23,10 @@ type c18Action struct {
 	Pre   string   `json:"pre,omitempty"` // absent | empty | bytes | previous-long-report | readonly | directory
 	Bytes []byte   `json:"bytes,omitempty"`
 	Args  []string `json:"args,omitempty"`
+	// Onto (validate-file only): the output path is one of the inputs - "data" / "profile" the same path,
+	// "symlink-data" / "hardlink-data" another name of the data file. The inputs are what they were when the command
+	// started; the file must end up holding the report all the same.
+	Onto string `json:"onto,omitempty"`
 }
 
 type c18Case struct {
@@ -71,6 +75,9 @@ func genC18(t *rapid.T) c18Case {
 		switch rapid.IntRange(0, 11).Draw(t, "akind") {
 		case 0, 1, 2, 3, 4:
 			a.Kind = "validate-file"
+			if rapid.IntRange(0, 5).Draw(t, "ontoInput") == 0 {
+				a.Onto = pick(t, []string{"data", "profile", "symlink-data", "hardlink-data"}, "onto")
+			}
 		case 5:
 			a.Kind = "validate-stdout"
 		case 6, 7, 8:
@@ -186,15 +193,43 @@ func decideC18(c c18Case) ev.Verdict {
 			}
 			t0 := time.Now()
 			args := []string{"validate", pfiles[a.P], dfiles[a.D]}
+			target := out
 			if a.Kind == "validate-file" {
-				args = append(args, out)
+				alias := filepath.Join(dir, "alias.jsonld")
+				_ = os.Remove(alias)
+				switch a.Onto {
+				case "data":
+					target = dfiles[a.D]
+				case "profile":
+					target = pfiles[a.P]
+				case "symlink-data":
+					if os.Symlink(dfiles[a.D], alias) == nil {
+						target = alias
+					}
+				case "hardlink-data":
+					if os.Link(dfiles[a.D], alias) == nil {
+						target = alias
+					}
+				}
+				if target != out {
+					before = readState(target)
+					v.Labels = append(v.Labels, "output-path-is-an-input:"+a.Onto)
+				}
+				args = append(args, target)
 			}
 			so, se, exit, err := runACV(args...)
 			t1 := time.Now()
 			if err != nil {
 				return ev.Verdict{Discard: true, Detail: err.Error(), Obs: map[string]int{"helper_failures": 1}}
 			}
-			after := readState(out)
+			after := readState(target)
+			if target != out {
+				// put the inputs back for the steps that follow
+				_ = os.Remove(filepath.Join(dir, "alias.jsonld"))
+				_ = os.Remove(dfiles[a.D])
+				_ = os.WriteFile(dfiles[a.D], []byte(c.Docs[a.D]), 0o644)
+				_ = os.WriteFile(pfiles[a.P], []byte(c.Profiles[a.P]), 0o644)
+			}
 			if lib.Err != nil {
 				if exit == 0 {
 					return ev.Violation("c18-exit0-on-failure", "step %d %s: library fails (%v) but acv exits 0", i, a.Kind, lib.Err)
